@@ -130,6 +130,8 @@ def c04(res):
     for f in fam(t, ["byte_q", "ext_q", "lane_q", "len_q"], ["byte_t", "ext_t", "lane_t", "len_t", "lines_t"]):
         replay_step(res, f, kinds=HEADS, modes="entries" if f.startswith("ext") else "base")
     feed_traces(res, fam(t, 250000, 3000000), kinds="0,1,2")
+    client_programs(res, fam(t, 600, 6000))
+    op_traces(res, fam(t, 3000, 30000))
 
 
 def c05(res):
@@ -173,11 +175,28 @@ def c17(res):
     session_traces(res, fam(t, 6000, 100000))
 
 
+def nostd_link(res):
+    """with `std` off the crate must link into a program without std and without an allocator"""
+    d = os.path.join(HARNESS, "nostd-link")
+    r = sh(["cargo", "build", "--offline", "--release"], cwd=d, env={"CARGO_NET_OFFLINE": "true"}, timeout=900, check=False)
+    ok = r.returncode == 0
+    res.evaluations += 1
+    res.extra["no_std_link"] = {"linked": ok, "what": "#![no_std] #![no_main] program, panic=abort, no global allocator, httparse with default-features=false, all five entry points referenced"}
+    if not ok:
+        out = (r.stdout or "")[-1500:]
+        res.violation("with the std feature disabled the crate does not link into a program without std / without an allocator: " + out[-400:],
+                      {"kind": "nostd-link", "key": "nostd-link", "output": out})
+    log("  [link] no_std, allocator-less program links: %s" % ok)
+
+
 def c19(res):
     t = res.tier
     mc_head(res, "outcome-coverage", invs=["InvConsumed"], L="1", caps="{0, 1, 2, 100000}")
-    for f in fam(t, ["byte_q", "lines_q"], ["byte_t", "ext_t", "lines_t", "lane_t"]):
+    nostd_link(res)
+    for f in fam(t, ["byte_q", "lines_q", "chunk_q"], ["byte_t", "ext_t", "lines_t", "lane_t", "chunk_t"]):
         replay_step(res, f, modes="entries")
+    replay_step(res, "lines_q", modes="entries", variant=VARIANTS["nostd"])
+    replay_step(res, "len_q", modes="entries", backend=3)
 
 
 def c01(res):
@@ -588,6 +607,71 @@ def c18(res):
     session_traces(res, fam(t, 12000, 300000))
 
 
+def client_programs(res, count):
+    """C04 static half: TLC enumerates client histories (Client.tla) with their class;
+    each sampled history is rendered into a Rust program and judged by rustc against the
+    working tree's crate: dangling => must be rejected by the borrow checker,
+    disciplined => must compile."""
+    import client, random
+    from concurrent.futures import ThreadPoolExecutor
+    ents = ", ".join('"%s"' % e for e in client.ENTRIES)
+    flds = ", ".join('"%s"' % f for f in client.FIELDS)
+    cfg = ("SPECIFICATION Spec\nCONSTANTS\n  MaxOps = %d\n  Entries = {%s}\n  Fields = {%s}\nINVARIANT Exclusive Emit\nPROPERTY Monotone\nCHECK_DEADLOCK FALSE\n"
+           % (4, ents, flds))
+    r = mc_step(res, "client-histories", "Client", cfg, workers=8, timeout=900)
+    hs = []
+    for line in open(r["out"], errors="replace"):
+        if line.startswith('"{'):
+            h = json.loads(json.loads(line))
+            if h["class"] != "grey" and client.applicable(h["entry"], h["field"]) and len(h["ops"]) >= 1:
+                hs.append(h)
+    rng = random.Random(res.seed)
+    rng.shuffle(hs)
+    # stratify: every (entry, field, class) at least a few
+    picked, seen = [], {}
+    for h in hs:
+        k = (h["entry"], h["field"], h["class"])
+        if seen.get(k, 0) < max(2, count // 80):
+            seen[k] = seen.get(k, 0) + 1
+            picked.append(h)
+        if len(picked) >= count:
+            break
+    bindir = build_harness("release")
+    rlib = client.find_rlib(bindir)
+    wd = os.path.join(WORK, "run", "%s-%s" % (res.prop, res.tier), "client")
+    shutil.rmtree(wd, ignore_errors=True)
+    os.makedirs(wd)
+
+    def run(ij):
+        i, h = ij
+        return (h,) + client.compile_one((client.render(h), rlib, os.path.join(bindir, "deps"), wd, i))
+    cnt = {}
+    with ThreadPoolExecutor(NCPU) as ex:
+        for h, ok, codes, msgs in ex.map(run, enumerate(picked)):
+            cnt[(h["class"], ok)] = cnt.get((h["class"], ok), 0) + 1
+            key = "client:%s:%s:%s" % (h["entry"], h["field"], ",".join(h["ops"]))
+            if h["class"] == "dangling" and ok:
+                res.violation("a program that keeps using a parsed field / value after its buffer or array is gone or mutated COMPILES: %s, field %s, ops %s"
+                              % (h["entry"], h["field"], h["ops"]), {"kind": "client", "history": h, "program": client.render(h), "key": key})
+            elif h["class"] == "dangling" and not (codes & client.BORROWCK):
+                raise ToolError("client program rejected for a reason other than borrow checking (template broken?): %s %s %s" % (h, codes, msgs[:2]))
+            elif h["class"] == "disciplined" and not ok:
+                if codes & client.BORROWCK:
+                    res.violation("a disciplined usage pattern no longer compiles (%s): %s, field %s, ops %s" % (sorted(codes), h["entry"], h["field"], h["ops"]),
+                                  {"kind": "client", "history": h, "program": client.render(h), "key": key})
+                else:
+                    raise ToolError("disciplined client program fails to compile for a non-borrow reason: %s %s %s" % (h, codes, msgs[:2]))
+    res.traces += len(picked)
+    res.evaluations += len(picked)
+    res.nontrivial += len(picked)
+    res.extra["client_programs"] = {"histories_enumerated_by_TLC": len(hs), "compiled": len(picked),
+                                    "dangling_rejected": cnt.get(("dangling", False), 0), "disciplined_accepted": cnt.get(("disciplined", True), 0)}
+    if picked:
+        res.samples.append({"client_history": picked[0], "program": client.render(picked[0])})
+    log("  [rustc] %d client programs: %s" % (len(picked), {"%s/%s" % (k[0], "compiles" if k[1] else "rejected"): v for k, v in cnt.items()}))
+    shutil.rmtree(wd, ignore_errors=True)
+
+
 def c20(res):
     t = res.tier
     mc_step(res, "cursor-contract", "MCCursor", "SPECIFICATION MCSpecC\nCONSTANT MaxLen = %s\nINVARIANT IndInv\nPROPERTY Forward\nCHECK_DEADLOCK FALSE\n" % fam(t, "6", "9"), workers=4)
@@ -598,6 +682,7 @@ def c20(res):
 PLANS = {"C01": c01, "C02": c02, "C03": c03, "C04": c04, "C05": c05, "C06": c06, "C07": c07, "C08": c08, "C09": c09,
          "C10": c10, "C11": c11, "C13": c13, "C14": c14, "C15": c15, "C16": c16, "C17": c17, "C12": c12, "C18": c18, "C19": c19, "C20": c20}
 LEVEL = {p: "model_checking" for p in PLANS}
+LEVEL["C19"] = "other"
 
 
 def describe(pid):
